@@ -1,5 +1,5 @@
 /*@unit {
- 'kind': 'proof', 'mode': 'legacy',
+ 'kind': 'proof', 'mode': 'legacy', 'solver': 'cadical',
  'functions': ['pool_engage', 'slist_add'],
  'extract': 'units/C10/pool_extract.py',
  'clauses': 'pool_engage(pool, zone, n*elemsz, elemsz) for EVERY cell count n (loop contract, no bound): every cell zone+k*elemsz is pushed exactly once - afterwards cell k links to cell k-1, cell 0 links to the previous first element (the head itself for a pool_init\'ed pool) and the head links to cell n-1, i.e. the free list is the simple path n-1, ..., 1, 0 of distinct aligned cells inside the zone; every write stays inside [zone, zone+size) (exact-size object) and only link fields are written (ghost byte index); the code\'s own assert(size % elemsz == 0) holds; terminates (decreases clause)',
